@@ -406,6 +406,9 @@ def bytes_method(ex, recv, name, args, kwargs, st):
                            z3.Implies(z3.And(z3.Length(a_) > 0, z3.Length(b_) > 0), (z3.Length(r) == 0) == (z3.Length(s) == 0)),
                            z3.Implies(z3.And(z3.Length(a_) > 0, z3.Length(b_) >= z3.Length(a_)), z3.Length(r) >= z3.Length(s))))
         return cls(r)
+    if name == "isprintable" and not args:
+        ex.assumed.add("str.isprintable(): total, an uninterpreted predicate of the text")
+        return VBool(uf(ex, "ISPRINTABLE", S, B)(s))
     if name == "count":
         f = uf(ex, "COUNT", S, S, I)
         r = f(s, args[0].z)
